@@ -37,51 +37,48 @@ def encodeUTF8 (cp : UInt32) : Option (List UInt8) :=
   else none
 
 /-- Distance from position `i` to the next quote byte, capped at 12. -/
-def quoteDist (a : Bytes) (i : Nat) : Nat := Id.run do
-  for d in [0:12] do
-    if a.getD (i + d) 0 == 34 then return d
-  return 12
+def quoteDist (a : Bytes) (i : Nat) : Nat :=
+  ((List.range 12).find? (fun d => a.getD (i + d) 0 == 34)).getD 12
 
-/-- Decode a string body starting at `a[i]` (just after the opening quote). Returns the decoded bytes
-    and the index of the closing quote; `none` = the validator returns 0. Bytes past the end of `a` read
-    as 0 (the Go caller pads). `lim` is `maxStringSize`: a scan position at or beyond `start + lim` fails. -/
-def decodeString (a : Bytes) (start : Nat) (lim : Nat) : Option (Bytes × Nat) := Id.run do
-  let mut i := start
-  let mut out : Bytes := #[]
-  let mut fuel := a.size + 64
-  while fuel > 0 do
-    fuel := fuel - 1
-    if i - start ≥ lim then return none
+/-- The decoder loop: `i` scan position, `out` bytes decoded so far, `fuel` bounds the number of iterations. -/
+def decodeStringGo (a : Bytes) (start lim : Nat) : (fuel : Nat) → (i : Nat) → (out : Bytes) → Option (Bytes × Nat)
+  | 0, _, _ => none
+  | fuel + 1, i, out =>
+    if i - start ≥ lim then none else
     let c := a.getD i 0
-    if c == 34 then return some (out, i)
+    if c == 34 then some (out, i)
     else if c == 92 then
       let e := a.getD (i+1) 0
       if e == 117 then
         let dist := quoteDist a i
-        if dist < 6 then return none
+        if dist < 6 then none else
         let cp := hex4 a (i+2)
         if cp &&& 0xFFFFFC00 == 0xD800 then
-          if dist < 12 then return none
-          if a.getD (i+6) 0 != 92 ∨ a.getD (i+7) 0 != 117 then return none
-          let cp2 := hex4 a (i+8)
-          if (cp2 ||| cp) > 0xFFFF then return none
-          let c32 : UInt32 := (((cp <<< 10) + 0xFCA00000) ||| (cp2 + 0xFFFF2400)) + 0x10000
-          match encodeUTF8 c32 with
-          | none => return none
-          | some bs => out := out ++ bs.toArray; i := i + 12
+          if dist < 12 then none
+          else if a.getD (i+6) 0 != 92 ∨ a.getD (i+7) 0 != 117 then none
+          else
+            let cp2 := hex4 a (i+8)
+            if (cp2 ||| cp) > 0xFFFF then none else
+            let c32 : UInt32 := (((cp <<< 10) + 0xFCA00000) ||| (cp2 + 0xFFFF2400)) + 0x10000
+            match encodeUTF8 c32 with
+            | none => none
+            | some bs => decodeStringGo a start lim fuel (i + 12) (out ++ bs.toArray)
         else
           match encodeUTF8 cp with
-          | none => return none
-          | some bs => out := out ++ bs.toArray; i := i + 6
+          | none => none
+          | some bs => decodeStringGo a start lim fuel (i + 6) (out ++ bs.toArray)
       else
         let m := escapeMap e
-        if m == 0 then return none
-        out := out.push m
-        i := i + 2
+        if m == 0 then none
+        else decodeStringGo a start lim fuel (i + 2) (out.push m)
     else
-      if i ≥ a.size then return none   -- ran off the end of the (padded) buffer without a quote
-      out := out.push c
-      i := i + 1
-  return none
+      if i ≥ a.size then none   -- ran off the end of the (padded) buffer without a quote
+      else decodeStringGo a start lim fuel (i + 1) (out.push c)
+
+/-- Decode a string body starting at `a[i]` (just after the opening quote). Returns the decoded bytes
+    and the index of the closing quote; `none` = the validator returns 0. Bytes past the end of `a` read
+    as 0 (the Go caller pads). `lim` is `maxStringSize`: a scan position at or beyond `start + lim` fails. -/
+def decodeString (a : Bytes) (start : Nat) (lim : Nat) : Option (Bytes × Nat) :=
+  decodeStringGo a start lim (a.size + 64) start #[]
 
 end SJ
